@@ -171,7 +171,7 @@ func replayC01Gen(r *Run) *ReplayResult {
 	copyFile(filepath.Join(r.verif, "corpusgen", "main.go.txt"), filepath.Join(scratch, "cmd", "corpusgen", "main.go"))
 	dir := filepath.Join(scratch, "corpus", "sinks")
 	os.MkdirAll(dir, 0o755)
-	tmpl := "package sinks\n\nimport \"fmt\"\n\ntempl Text(v string) {\n\t<div id=\"d\">{ v }</div>\n}\n\ntempl Attr(v string) {\n\t<div id=\"d\" data-v={ v }>x</div>\n}\n\ntempl AttrJSON(v string) {\n\t<div id=\"d\" data-v={ templ.JSONString(v) }>x</div>\n}\n\ntempl AttrSprint(v string) {\n\t<div id=\"d\" data-v={ fmt.Sprint(v) }>x</div>\n}\n\ntempl AttrCond(v string) {\n\t<div id=\"d\"\n\t\tif v != \"\" {\n\t\t\tdata-v={ v }\n\t\t}\n\t>x</div>\n}\n\ntempl AttrMixed(v string) {\n\t<input id=\"d\" disabled?={ v != \"\" } data-v={ v } title=\"t\"/>\n}\n"
+	tmpl := "package sinks\n\nimport \"fmt\"\n\ntempl Text(v string) {\n\t<div id=\"d\">{ v }</div>\n}\n\ntempl Attr(v string) {\n\t<div id=\"d\" data-v={ v }>x</div>\n}\n\ntempl AttrJSON(v string) {\n\t<div id=\"d\" data-v={ templ.JSONString(v) }>x</div>\n}\n\ntempl AttrSprint(v string) {\n\t<div id=\"d\" data-v={ fmt.Sprint(v) }>x</div>\n}\n\ntempl AttrCond(v string) {\n\t<div id=\"d\"\n\t\tif v != \"\" {\n\t\t\tdata-v={ v }\n\t\t}\n\t>x</div>\n}\n\ntempl AttrMixed(v string) {\n\t<input id=\"d\" disabled?={ v != \"\" } data-v={ v } title=\"t\"/>\n}\n\n// string literals written by the template author are values too: spelled with escapes, they must still be escaped\ntempl LitText(v string) {\n\t<div id=\"d\">{ \"\\x3cimg src=x onerror=alert(1)\\x3e\\u003cscript\\u003e\" }</div>\n}\n\ntempl LitAttr(v string) {\n\t<div id=\"d\" data-v={ \"\\x22 onmouseover=\\x22alert(1)\\042 \\u0027\" }>x</div>\n}\n\ntempl LitRaw(v string) {\n\t<div id=\"d\" data-v={ `\" onfocus=\"x` }>{ `<b>` }</div>\n}\n"
 	os.WriteFile(filepath.Join(dir, "t.templ"), []byte(tmpl), 0o644)
 	test := `package sinks
 
@@ -188,7 +188,7 @@ import (
 
 func TestSinks(t *testing.T) {
 	vals := []string{"plain", "it's", "x' onmouseover='alert(1)", "\" autofocus onfocus=\"alert(1)", "'><script>alert(1)</script>", "</div><script>alert(1)</script>", "a&amp;b", "a<b>c"}
-	comps := map[string]func(string) templ.Component{"Text": Text, "Attr": Attr, "AttrJSON": AttrJSON, "AttrSprint": AttrSprint, "AttrCond": AttrCond, "AttrMixed": AttrMixed}
+	comps := map[string]func(string) templ.Component{"Text": Text, "Attr": Attr, "AttrJSON": AttrJSON, "AttrSprint": AttrSprint, "AttrCond": AttrCond, "AttrMixed": AttrMixed, "LitText": LitText, "LitAttr": LitAttr, "LitRaw": LitRaw}
 	for name, c := range comps {
 		for _, v := range vals {
 			var b bytes.Buffer
@@ -245,7 +245,7 @@ func TestSinks(t *testing.T) {
 		}
 	}
 	if strings.Contains(out, "GEN-SINK-OK") {
-		return &ReplayResult{Input: input, Detail: "REPLAY-NOT-REPRODUCED 6 generated sink shapes x 8 adversarial values keep the structure the template author wrote"}
+		return &ReplayResult{Input: input, Detail: "REPLAY-NOT-REPRODUCED 9 generated sink shapes (3 of them constant string literals spelled with escapes) x 8 adversarial values keep the structure the template author wrote"}
 	}
 	return &ReplayResult{Input: input, Detail: "REPLAY-NOT-REPRODUCED (replay harness error: " + firstLines(out, 6) + ")"}
 }
